@@ -122,7 +122,8 @@ pub fn run(input: &Value) -> Option<Value> {
     match (res, expected_err) {
         (Err(e), Some((f, ln))) => {
             let ok = match &e {
-                ScriptError::ErrorReadingFile(p, _) => ln.is_none() && p.ends_with(&f),
+                // the missing file is named by the path it was looked for at: relative to the including file's directory
+                ScriptError::ErrorReadingFile(p, _) => ln.is_none() && same_file(p, &dir.join(&f).to_string_lossy()),
                 ScriptError::MissingEndQuotes(m) => m.line == ln && m.source.as_ref().map(|s| same_file(s, &f)).unwrap_or(false),
                 _ => false,
             };
